@@ -470,6 +470,15 @@ func (a *Announce) VerifARPProcess(index int) int {
 	return int(r.processRequest())
 }
 
+// VerifARPRun starts the REAL receive loop of the responder attached under index (arpResponder.run:
+// processRequest until it reports dropReasonClosed), as newARPResponder does.
+func (a *Announce) VerifARPRun(index int) {
+	vAttMu.Lock()
+	r := vAtt[a].arps[index]
+	vAttMu.Unlock()
+	go r.run()
+}
+
 // VerifAddNDP attaches an NDP responder named intf whose socket is a real
 // ICMPv6 socket on ifi (needed for JoinGroup / LeaveGroup). No goroutine.
 func (a *Announce) VerifAddNDP(index int, intf string, ifi *net.Interface) error {
